@@ -97,43 +97,66 @@ Proof.
     constructor; [|now apply IH]. eapply addr_struct_tok; exact Es.
 Qed.
 
-Lemma parse_address_list_tok a r : parse_address_list a = Some r -> tokp r.
+Lemma addr_paren_tok n m h :
+  tokp ([LP] ++ quote_or_nil n ++ S_ " NIL " ++ quote_or_nil m ++ [SP] ++ quote_or_nil h ++ [RP]).
 Proof.
-  unfold parse_address_list. destruct a as [|c a]; [intros E; injection E as <-; apply tokp_NIL|].
-  destruct (addr_structs (split_byte (c :: a) ","%char)) as [l|] eqn:El; [|discriminate].
-  pose proof (addr_structs_tok _ _ El) as Hl.
-  destruct l as [|x l]; intros E; injection E as <-; [apply tokp_NIL|].
-  apply (tokp_paren (join (x :: l) [SP])). apply (bal_join (x :: l)).
-  eapply Forall_impl; [|exact Hl]. intros t. apply tokp_bal.
+  set (inner := quote_or_nil n ++ S_ " NIL " ++ quote_or_nil m ++ [SP] ++ quote_or_nil h).
+  match goal with |- tokp ?X => assert (EX : X = LP :: inner ++ [RP]) end.
+  { subst inner. cbn [app S_ list_ascii_of_string]. repeat (rewrite <- app_assoc; cbn [app]). reflexivity. }
+  rewrite EX. clear EX. subst inner. apply tokp_paren.
+  apply bal_app; [apply bal_quote|]. apply bal_app; [reflexivity|].
+  apply bal_app; [apply bal_quote|]. apply bal_app; [reflexivity|apply bal_quote].
 Qed.
 
-Lemma envelope_fields_tok d s f sd rt t c b ir mi fs :
-  envelope_fields d s f sd rt t c b ir mi = Some fs -> Forall tokp fs /\ length fs = 10.
+Lemma mail_structs_tok l : Forall tokp (mail_structs l).
+Proof.
+  unfold mail_structs. apply Forall_map. apply Forall_forall. intros [n a] _. cbn [fst snd].
+  destruct (split_at_last a "@"%char) as [m h]. apply addr_paren_tok.
+Qed.
+
+(** for EVERY result net/mail can return (any strings as name and address) and
+    every header value the rendered list is one well-formed token *)
+Lemma parse_address_list_tok mp a r : parse_address_list mp a = Some r -> tokp r.
+Proof.
+  unfold parse_address_list. destruct a as [|c a]; [intros E; injection E as <-; apply tokp_NIL|].
+  destruct (mp (c :: a)) as [[|x l]|].
+  2:{ intros E. injection E as <-.
+      apply (tokp_paren (join (mail_structs (x :: l)) [SP])). apply bal_join.
+      eapply Forall_impl; [|apply mail_structs_tok]. intros t. apply tokp_bal. }
+  all: destruct (addr_structs (split_byte (c :: a) ","%char)) as [l0|] eqn:El; try discriminate;
+    pose proof (addr_structs_tok _ _ El) as Hl;
+    destruct l0 as [|y l0]; intros E; injection E as <-; try apply tokp_NIL;
+    apply (tokp_paren (join (y :: l0) [SP])); apply (bal_join (y :: l0));
+    (eapply Forall_impl; [|exact Hl]); intros t; apply tokp_bal.
+Qed.
+
+Lemma envelope_fields_tok mp d s f sd rt t c b ir mi fs :
+  envelope_fields mp d s f sd rt t c b ir mi = Some fs -> Forall tokp fs /\ length fs = 10.
 Proof.
   unfold envelope_fields, opt_list. cbn [fold_right].
   set (sd' := match sd with [] => f | _ => sd end).
   set (rt' := match rt with [] => f | _ => rt end).
-  destruct (parse_address_list f) as [xf|] eqn:Ef;
-  destruct (parse_address_list sd') as [xs|] eqn:Es;
-  destruct (parse_address_list rt') as [xr|] eqn:Er;
-  destruct (parse_address_list t) as [xt|] eqn:Et;
-  destruct (parse_address_list c) as [xc|] eqn:Ec;
-  destruct (parse_address_list b) as [xb|] eqn:Eb; cbn; intros E; try discriminate.
+  destruct (parse_address_list mp f) as [xf|] eqn:Ef;
+  destruct (parse_address_list mp sd') as [xs|] eqn:Es;
+  destruct (parse_address_list mp rt') as [xr|] eqn:Er;
+  destruct (parse_address_list mp t) as [xt|] eqn:Et;
+  destruct (parse_address_list mp c) as [xc|] eqn:Ec;
+  destruct (parse_address_list mp b) as [xb|] eqn:Eb; cbn; intros E; try discriminate.
   injection E as <-. split; [|reflexivity].
   repeat (apply Forall_cons); try apply Forall_nil;
     try apply tokp_quote_or_nil_any;
     try (eapply parse_address_list_tok; eassumption).
 Qed.
 
-Theorem envelope_wf raw v :
-  envelope_value raw = Some v ->
+Theorem envelope_wf mp raw v :
+  envelope_value mp raw = Some v ->
   tokb v = true /\ exists fs, length fs = 10 /\ Forall (fun t => tokb t = true) fs
                               /\ tokens (S (length v)) (skipn 1 v) = Some (fs, [RP]).
 Proof.
   unfold envelope_value. intros E.
   match type of E with match ?X with _ => _ end = _ => destruct X as [fs|] eqn:Ef; [|discriminate] end.
   injection E as <-.
-  destruct (envelope_fields_tok _ _ _ _ _ _ _ _ _ _ fs Ef) as [Htok Hlen].
+  destruct (envelope_fields_tok _ _ _ _ _ _ _ _ _ _ _ fs Ef) as [Htok Hlen].
   split.
   - apply tokb_tokp. apply (tokp_paren (join fs [SP])). apply (bal_join fs).
     eapply Forall_impl; [|exact Htok]. intros t. apply tokp_bal.
@@ -154,7 +177,7 @@ Definition w_cr_msg : str :=
 
 Lemma old_bare_cr_malformed :
   wf_stream (send (S_ "* 1 FETCH (ENVELOPE (NIL ""a" ++ [CR] ++ S_ "b"" NIL NIL NIL NIL NIL NIL NIL NIL))")) = false
-  /\ match envelope_value w_cr_msg with
+  /\ match envelope_value (fun _ => None) w_cr_msg with
      | Some v => wf_stream (send (fetch_line 1 [Inline (S_ "ENVELOPE") v])) = true
      | None => False
      end.
